@@ -115,6 +115,7 @@ def reproduces(viol, code, out, err):
     if k == 'ub': return code == 78 or code == 77 or 'runtime error' in err
     if k in ('terminate', 'libassert', 'stdthrow'): return code in (-6, 134) or 'terminate' in err or 'Assertion' in err
     if k == 'compiler-dependent': return code == 3
+    if k == 'bmc-law': return code == 3
     return False
 
 
@@ -146,8 +147,72 @@ def match_known(known, pid, run, v):
     return None
 
 
+def bmc_run(pid, run, work, log):
+    """E-bmc: lower a heap-free kernel TU with clang, translate the IR to C (engine/ir2c.py), decide the law harness with CBMC in one
+    merged formula; differential test of the generated C against the g++ build of the real functions; WITNESS twin must fail;
+    a failing law is re-evaluated natively on the real functions with the counterexample's values before it is reported."""
+    import ir2c
+    t0 = time.time()
+    res = {'name': run.name, 'problems': [], 'confirmed': [], 'known': [], 'unconfirmed': [], 'validated': 0}
+    K = os.path.join(VERIF, 'harness', 'kernels')
+    ksrc = os.path.join(K, run.harness); laws = os.path.join(K, run.laws)
+    ll = os.path.join(work, run.name + '.ll'); cgen = os.path.join(work, run.name + '.gen.c')
+    flags = ['-std=' + run.std, '-fgnuc-version=10.0.0', '-O1', '-fno-exceptions', '-fno-rtti', '-fno-vectorize', '-fno-slp-vectorize', '-fno-unroll-loops', '-I' + REPO + '/include', '-S', '-emit-llvm', '-Wno-everything']
+    r = sh([CLANG] + flags + [ksrc, '-o', ll])
+    if r.returncode != 0: raise RuntimeError('lowering kernel failed:\n' + r.stderr[-2000:])
+    m = irparse.parse_module(open(ll).read())
+    open(cgen, 'w').write(ir2c.Emitter(m, {'nsw': True, 'exc': False}).emit())
+    res['lowering'] = {'cmd': ' '.join([CLANG] + flags), 'ir_lines': open(ll).read().count('\n'), 'secs': round(time.time() - t0, 2)}
+    kernels = [f.name for f in m.funcs.values() if f.defined and f.name.startswith('k_')]
+    # differential test generated C vs real functions
+    gen_exe = os.path.join(work, run.name + '.gen.exe'); real_exe = os.path.join(work, run.name + '.real.exe')
+    r1 = sh(['gcc', '-O1', '-w', '-I' + K, cgen, laws, '-o', gen_exe])
+    r2 = sh(['g++', '-std=' + run.std, '-O1', '-w', '-I' + REPO + '/include', '-c', ksrc, '-o', real_exe + '.k.o'])
+    r3 = sh(['gcc', '-O1', '-w', '-I' + K, '-c', laws, '-o', real_exe + '.l.o'])
+    r4 = sh(['g++', real_exe + '.k.o', real_exe + '.l.o', '-o', real_exe])
+    for rr in (r1, r2, r3, r4):
+        if rr.returncode != 0: raise RuntimeError('native build of kernel/laws failed:\n' + rr.stderr[-1500:])
+    d1 = sh([gen_exe, '--difftest']).stdout.strip(); d2 = sh([real_exe, '--difftest']).stdout.strip()
+    if d1 != d2 or not d1: res['problems'].append('ENGINE-MISMATCH: generated C and the real functions disagree in the differential test (%s vs %s)' % (d1, d2))
+    else: res['validated'] += 1
+    base = ['cbmc', cgen, laws, '-I', K, '--function', run.entry, '--unwind', str(run.unwind), '--unwinding-assertions', '--signed-overflow-check', '--undefined-shift-check',
+            '--pointer-overflow-check', '--drop-unused-functions', '--no-malloc-may-fail']
+    tq = time.time(); r = sh(base, timeout=run.budget_s); qsecs = time.time() - tq
+    out = r.stdout
+    results = re.findall(r'^\[(\S+)\] line (\d+) (.*): (SUCCESS|FAILURE)$', out, re.M)
+    if not results: res['problems'].append('cbmc produced no verdict: ' + (out[-400:] + r.stderr[-400:]))
+    failed = [x for x in results if x[3] == 'FAILURE']
+    # vacuity: the WITNESS twin's final assert(0) must fail
+    rw = sh(base + ['-DWITNESS'], timeout=run.budget_s)
+    wres = re.findall(r'^\[(\S+)\] line (\d+) (.*): (SUCCESS|FAILURE)$', rw.stdout, re.M)
+    if not any('reachability witness' in x[2] and x[3] == 'FAILURE' for x in wres): res['problems'].append('vacuity: the WITNESS assertion of the CBMC harness did not fail (assumptions unsatisfiable?)')
+    log('  [%s] E-bmc: %d kernels, %d laws, %d failed, cbmc %.1fs' % (run.name, len(kernels), len(results), len(failed), qsecs))
+    if failed:
+        names = re.findall(r'IN(?:64|32)\((\w+)\)', open(laws).read())
+        for f in failed[:3]:
+            # one counterexample per failing law (a trace of the whole run only witnesses one of them)
+            rt = sh(base + ['--property', f[0], '--trace'], timeout=run.budget_s)
+            vals = {}
+            for n in names:
+                mm = re.findall(r'^\s*%s=(\d+)' % n, rt.stdout, re.M)
+                if mm: vals[n] = int(mm[-1])
+            rn = sh([real_exe] + ['%s=%d' % kv for kv in vals.items()])
+            rp = {'choices': [['sym', 64, v] for v in vals.values()], 'inputs': vals, 'obs': [], 'cover': [], 'heapfill': [], 'steps': 0,
+                  'violation': {'msg': 'CBMC: law "%s" fails for %s' % (f[2], vals), 'kind': 'bmc-law', 'aid': int(f[1]), 'where': run.laws + ':' + f[1], 'tags': []}}
+            rec = {'run': run.name, 'harness': run.harness, 'defines': {}, 'std': run.std, 'exc': False, 'own_new': False, 'replay': rp, 'count': 1, 'bmc': {'laws': run.laws, 'kernel': run.harness}}
+            if ('LAW-FAIL ' + f[2]) in rn.stdout:
+                rec['native'] = {'variant': 'g++ build of the real functions', 'exit': rn.returncode, 'out': rn.stdout[-300:]}; res['confirmed'].append(rec)
+            else:
+                rec['native_attempts'] = [{'out': rn.stdout[-300:], 'exit': rn.returncode}]; res['unconfirmed'].append(rec)
+    res['tot'] = {'paths': 1, 'steps': 0, 'forks': 0, 'queries': len(results), 'qtime': qsecs, 'wall': time.time() - t0, 'nviol': len(failed), 'cover_wit': {}, 'samples': [],
+                  'fcalls': {k: 1 for k in kernels}, 'inconclusive': [], 'max_steps_seen': 0, 'ended': 1, 'pruned': 0, 'sched_points': 0, 'max_threads': 1, 'cache_hits': 0, 'deadlocks': 0, 'violations': []}
+    res['bmc'] = {'laws': [x[2] for x in results], 'kernels': kernels, 'cbmc_seconds': round(qsecs, 2), 'cbmc_cmd': ' '.join(base[:1] + ['<generated.c>'] + base[2:])}
+    return res
+
+
 def explore_run(pid, run, tier, work, nproc, log):
     """returns dict with stats, violations (confirmed / unconfirmed), problems"""
+    if getattr(run, 'kind', 'sym') == 'bmc': return bmc_run(pid, run, work, log)
     res = {'name': run.name, 'problems': [], 'confirmed': [], 'known': [], 'unconfirmed': []}
     L = lower(run, work)
     res['lowering'] = {'cmd': L.cmd, 'ir_lines': L.lines, 'secs': round(L.secs, 2)}
@@ -336,6 +401,7 @@ def write_evidence(pid, tier, seed, spec, runs, results, problems, nviol, wall):
                   'wall_s': round(r['tot']['wall'], 1), 'cover_goals_hit': sorted(r['tot']['cover_wit'].keys()), 'scheduling_points': r['tot']['sched_points'], 'threads': r['tot']['max_threads'],
                   'deadlock_states': r['tot']['deadlocks'], 'witnesses_validated_natively': r.get('validated', 0), 'violations': r['tot']['nviol']} for r in results],
         'functions_encoded': enc,
+        'e_bmc': [dict(r['bmc'], run=r['name']) for r in results if 'bmc' in r],
         'outside_the_bounds': spec.outside,
         'problems': problems,
     }
